@@ -5,7 +5,7 @@
 P="$1"; W="$2"; M="$3"; RUNS="${4:-}"
 D="$W/out/$M"
 cd "$W" || exit 2
-git checkout -q -- . 
+git checkout -q -- . ; git checkout -q --detach $(git -C /repo rev-parse HEAD)
 DEMO=$(ls $D/demo.py $D/test_demo.py 2>/dev/null | head -1)
 echo "== demo without change"; (cd $W && timeout 600 /venv/bin/python $DEMO >/tmp/seed_demo_clean.log 2>&1); C0=$?
 git apply "$D/patch.diff" || { echo "patch does not apply"; exit 2; }
